@@ -523,6 +523,36 @@ def generate_rescale(repo):
     return "\n".join(out), dict(members=len(members), rescaled=len(names), declared=declared, loop=loop)
 
 
+def whfast_rescale_branch(repo):
+    """src/tools.c, reb_simulation_rescale_var: the WHFast branch.  Two shapes of the source are understood:
+       "safe-mode-0-only":  if (r->integrator == REB_INTEGRATOR_WHFAST && r->ri_whfast.safe_mode == 0){ flag = 1; }   (pinned tree)
+       "any-mode":          if (r->integrator == REB_INTEGRATOR_WHFAST){ flag = 1; }                                   (repaired, a9d135c)
+    anything else (another condition, another body) is a ParseError: the tie has no rule for it."""
+    t = strip_comments(open(os.path.join(repo, "src", "tools.c")).read())
+    f = re.search(r"void reb_simulation_rescale_var\s*\(.*?\)\s*\{(.*?)\n\}\n", t, flags=re.S)
+    if not f:
+        raise ParseError("tools.c: reb_simulation_rescale_var not found")
+    body = f.group(1)
+    # (the other WHFast test of the routine, "... && r->ri_whfast.is_synchronized == 0", is the unsynchronized-warning guard: model op `rescale`)
+    heads = [h_ for h_ in re.finditer(r"if\s*\(([^{};]*REB_INTEGRATOR_WHFAST[^{};]*)\)\s*\{", body) if "is_synchronized" not in h_.group(1)]
+    if len(heads) != 1:
+        raise ParseError("tools.c: rescale_var has %d WHFast branches (1 expected)" % len(heads))
+    cond = re.sub(r"\s+", " ", heads[0].group(1)).strip()
+    i = heads[0].end()
+    depth, j = 1, i
+    while depth and j < len(body):
+        depth += {"{": 1, "}": -1}.get(body[j], 0)
+        j += 1
+    block = re.sub(r"\s+", " ", body[i:j - 1]).strip()
+    if block != "r->ri_whfast.recalculate_coordinates_this_timestep = 1;":
+        raise ParseError("tools.c: rescale_var WHFast branch body not understood: " + block[:160])
+    if cond == "r->integrator == REB_INTEGRATOR_WHFAST && r->ri_whfast.safe_mode == 0":
+        return "safe-mode-0-only"
+    if cond == "r->integrator == REB_INTEGRATOR_WHFAST":
+        return "any-mode"
+    raise ParseError("tools.c: rescale_var WHFast branch condition not understood: " + cond[:160])
+
+
 if __name__ == "__main__":
     text, fams, total = generate(sys.argv[1] if len(sys.argv) > 1 else "/repo")
     sys.stdout.write(text)
